@@ -34,7 +34,7 @@ ASSUMPTIONS = [
 def strategy(tier):
     return struct.histories(viewers=False, residents=True, inc_ok=False,
                             max_ticks=6 if tier == 'quick' else 12,
-                            reject_ok=True, tuple_delete=True)
+                            reject_ok=True, tuple_delete=True, none_ok=True)
 
 
 def run_case(spec):
